@@ -64,6 +64,16 @@ def check_model(model: ir.Model) -> None:
     del model  # Unused yet
 
 
+def _is_same_file(path1: str | os.PathLike, path2: str | os.PathLike) -> bool:
+    """Whether both paths name the same file (the files need not exist)."""
+    try:
+        return os.path.samefile(path1, path2)
+    except OSError:
+        return os.path.normcase(os.path.abspath(path1)) == os.path.normcase(
+            os.path.abspath(path2)
+        )
+
+
 def save_model_with_external_data(
     model: ir.Model, model_path: str | os.PathLike, verbose: bool = False
 ) -> None:
@@ -88,6 +98,22 @@ def save_model_with_external_data(
         )
     destination_path = pathlib.Path(model_path)
     data_path = f"{destination_path.name}.data"
+    # Tensors that already live in the destination data file cannot stay valid once
+    # that file is rewritten (ir.save would invalidate them): refuse before writing.
+    data_file = os.path.join(os.path.dirname(os.fspath(model_path)), data_path)
+    tensors_in_destination = [
+        value.name
+        for graph in all_graphs
+        for value in graph.initializers.values()
+        if isinstance(value.const_value, ir.ExternalTensor)
+        and _is_same_file(value.const_value.path, data_file)
+    ]
+    if tensors_in_destination:
+        raise ValueError(
+            f"The initializers {tensors_in_destination} are stored in the destination data file "
+            f"'{data_file}', which would be overwritten. Load them into memory first "
+            "(ir.external_data.load_to_model) or save the model under a different name."
+        )
 
     # Show a progress bar if verbose is True and tqdm is installed
     use_tqdm = verbose and importlib.util.find_spec("tqdm") is not None
